@@ -41,11 +41,14 @@ type world struct {
 	misfired chan quartz.ScheduledJob
 	cancel   []context.CancelFunc
 	born     int64
+	thr      int64 // OutdatedThreshold of the schedulers of this world
 	badWrap  int
 }
 
-func newWorld(variant string, misCap int) *world {
-	w := &world{variant: variant, locker: &recLocker{}, born: quartz.NowNano()}
+func newWorld(variant string, misCap int) *world { return newWorldThr(variant, misCap, thrNS) }
+
+func newWorldThr(variant string, misCap int, thr int64) *world {
+	w := &world{variant: variant, locker: &recLocker{}, born: quartz.NowNano(), thr: thr}
 	var inner quartz.JobQueue = quartz.NewJobQueue()
 	if variant[1] == 'c' {
 		inner = &copyQueue{inner}
@@ -60,7 +63,7 @@ func newWorld(variant string, misCap int) *world {
 		w.misfired = make(chan quartz.ScheduledJob, misCap)
 	}
 	for i := 0; i < n; i++ {
-		opts := []quartz.SchedulerOpt{quartz.WithQueue(w.rq, w.locker), quartz.WithOutdatedThreshold(time.Duration(thrNS))}
+		opts := []quartz.SchedulerOpt{quartz.WithQueue(w.rq, w.locker), quartz.WithOutdatedThreshold(time.Duration(thr))}
 		if w.misfired != nil {
 			opts = append(opts, quartz.WithMisfiredChan(w.misfired))
 		}
@@ -111,11 +114,12 @@ func (w *world) addTrig(t *rtrig) *rtrig {
 
 // op is one command: cmd is the text for the driver without the clock reading.
 type op struct {
-	pushFail bool   // F: the next Push of the queue fails (the reschedule push of this fetch)
-	kind     byte   // 'A' api, 'F' fetch, 'X' foreign
-	text     string // A: "S name group r s tid" ...; X: "push ..." ; F: ""
-	sched    int
-	run      func(s quartz.Scheduler) string // A / X: performs the call, returns the result class
+	pushFail   bool   // F: the next Push of the queue fails (the reschedule push of this fetch)
+	removeFail bool   // A: the next Remove of the queue fails
+	kind       byte   // 'A' api, 'F' fetch, 'X' foreign
+	text       string // A: "S name group r s tid" ...; X: "push ..." ; F: ""
+	sched      int
+	run        func(s quartz.Scheduler) string // A / X: performs the call, returns the result class
 }
 
 var noJob = &rjob{key: "-"}
@@ -260,7 +264,15 @@ func (w *world) step(o op) (string, string) {
 	hint := "- -"
 	switch o.kind {
 	case 'A', 'X':
+		if o.pushFail {
+			w.fq.failNext.Store(true)
+		}
+		if o.removeFail {
+			w.fq.failRemove.Store(true)
+		}
 		obs = o.run(s)
+		w.fq.failNext.Store(false)
+		w.fq.failRemove.Store(false)
 	case 'F':
 		// the interrupt token of a never-started scheduler is never consumed: Reset() shows only while
 		// no token is pending yet
@@ -318,7 +330,13 @@ func (w *world) step(o op) (string, string) {
 	}
 	switch o.kind {
 	case 'A':
-		return fmt.Sprintf("A %d %s", now, o.text), obs + " " + callsStr(w.calls)
+		c := "A"
+		if o.pushFail {
+			c = "AXP"
+		} else if o.removeFail {
+			c = "AXR"
+		}
+		return fmt.Sprintf("%s %d %s", c, now, o.text), obs + " " + callsStr(w.calls)
 	case 'X':
 		return "X " + o.text, obs
 	default:
@@ -326,7 +344,7 @@ func (w *world) step(o op) (string, string) {
 		if o.pushFail {
 			c = "FX"
 		}
-		return fmt.Sprintf("%s %d %d %s", c, now, thrNS, hint), obs
+		return fmt.Sprintf("%s %d %d %s", c, now, w.thr, hint), obs
 	}
 }
 
@@ -578,6 +596,14 @@ func (w *world) randomOp(r *rand.Rand, withFetch bool, base int64) op {
 		o = w.opClear()
 	}
 	o.sched = r.Intn(2)
+	if withFetch && o.kind == 'A' { // a transient failure of the queue inside the call
+		switch r.Intn(14) {
+		case 0:
+			o.pushFail = true
+		case 1:
+			o.removeFail = true
+		}
+	}
 	return o
 }
 
@@ -595,9 +621,18 @@ func runRandom(e *emitter, st *stats, r *rand.Rand, nseq, depth int, withFetch b
 			if !withFetch {
 				misCap = 4
 			}
-			w := newWorld(variant, misCap)
+			thr := thrNS
+			if withFetch {
+				switch rr.Intn(8) { // the boundary settings of OutdatedThreshold
+				case 0:
+					thr = 0
+				case 1:
+					thr = int64(1<<63 - 1)
+				}
+			}
+			w := newWorldThr(variant, misCap, thr)
 			var lines []string
-			lines = append(lines, fmt.Sprintf("# seq %d variant %s miscap %d", e.seq, variant, misCap), "reset "+w.qkind()+"\tok")
+			lines = append(lines, fmt.Sprintf("# seq %d variant %s miscap %d thr %d", e.seq, variant, misCap, thr), "reset "+w.qkind()+"\tok")
 			stalled := false
 			for i := 0; i < depth; i++ {
 				ntr := len(w.trigs)
@@ -707,6 +742,28 @@ func runDirected(e *emitter, st *stats, only int) {
 			}
 		}})
 	}
+	for _, qv := range []string{"nd", "nc"} {
+		qv := qv
+		scenarios = append(scenarios, sc{"apifault " + qv, func(w *world) []op {
+			t := w.addTrig(newSimple(0, futNS))
+			u := w.addTrig(newSimple(0, futNS))
+			rf := func(o op) op { o.removeFail = true; return o }
+			pf := func(o op) op { o.pushFail = true; return o }
+			return []op{
+				w.opSchedule("a", "default", false, false, t, false),
+				rf(w.opKey('P', "a", "default")), w.opKey('G', "a", "default"), // Remove fails inside PauseJob: error, still active
+				w.opKey('P', "a", "default"),
+				rf(w.opKey('R', "a", "default")), w.opKey('G', "a", "default"), // ... inside ResumeJob: error, still paused
+				rf(w.opKey('D', "a", "default")), w.opKey('G', "a", "default"),
+				w.opKey('R', "a", "default"),
+				pf(w.opSchedule("b", "g", false, false, u, false)), w.opKeys(),
+				w.opSchedule("b", "g", false, false, u, false),
+				pf(w.opKey('P', "b", "g")), w.opKeys(), // Push fails inside PauseJob: error (the entry is lost)
+				w.opSchedule("b", "g", false, true, u, false),
+				pf(w.opKey('R', "b", "g")), w.opKeys(),
+			}
+		}})
+	}
 	for i, s := range scenarios {
 		if aborted {
 			return
@@ -717,7 +774,9 @@ func runDirected(e *emitter, st *stats, only int) {
 		}
 		variant := "nd"
 		misCap := 8
-		if strings.HasPrefix(s.name, "pushfail") {
+		if strings.HasPrefix(s.name, "apifault") {
+			fmt.Sscanf(s.name, "apifault %s", &variant)
+		} else if strings.HasPrefix(s.name, "pushfail") {
 			fmt.Sscanf(s.name, "pushfail %s", &variant)
 		} else if strings.HasPrefix(s.name, "classify") {
 			fmt.Sscanf(s.name, "classify %s miscap %d", &variant, &misCap)
